@@ -345,7 +345,7 @@ def rule_w5(ctx: Ctx) -> None:
         best = min(images, key=lambda im: len(im ^ got))
         extra = sorted(got - best)
         missing = sorted(best - got)
-        ctx.violation("C16-W5", f, node, f"the table is not the basis of the closure of the {what}: {extra} should not be listed, {missing} is missing; classes whose basis elements meet the table only through these entries get the wrong verdict")
+        ctx.violation("C16-W5", f, node, f"the table is not the basis of the closure of the {what}: {extra} should not be listed, {missing} is missing; classes whose basis elements meet the table only through these entries get the wrong verdict", robust=True)
 
 def run(ctx: Ctx) -> None:  # noqa: F811
     _OLD_RUN(ctx)
@@ -424,7 +424,7 @@ def check_fold(ctx: Ctx, f: FuncInfo, what: str) -> None:
         return None
     early = scan(lp.body, False)
     if early and early[0] in ("break", "return"):
-        ctx.violation("C16-W6", f, early[1], f"{what}: the loop over the argument can be left early (`{early[0]}`), so elements listed later contribute nothing and the verdict depends on the order of the basis")
+        ctx.violation("C16-W6", f, early[1], f"{what}: the loop over the argument can be left early (`{early[0]}`), so elements listed later contribute nothing and the verdict depends on the order of the basis", robust=True)
         return
     if early:
         raise AnalysisError(f"{f.where}: an element can be skipped (`continue` at line {early[1].lineno}); whether its contribution is empty is not decided")
@@ -453,7 +453,7 @@ def check_fold(ctx: Ctx, f: FuncInfo, what: str) -> None:
     if kind in ("extend", "update", "+=", "|=", "union", "|", "+"):
         ctx.ok("C16-W6", f.where, f"{what}: every element of the argument is visited and its contribution is joined (`{kind}`) to the result", node, f)
     elif kind in ("intersection", "&", "&=", "difference", "-", "-=", "intersection_update", "difference_update"):
-        ctx.violation("C16-W6", f, node, f"{what}: contributions are combined with `{kind}`, not joined: the result is not the union over the basis elements")
+        ctx.violation("C16-W6", f, node, f"{what}: contributions are combined with `{kind}`, not joined: the result is not the union over the basis elements", robust=True)
     else:
         raise AnalysisError(f"{f.where}: update `{kind}` of the accumulator not recognised")
 
